@@ -498,7 +498,7 @@ func scenarios() []scenario {
 			return strings.Join(ids, ","), nil
 		}})
 	}
-	for _, nk := range [][2]int{{2, 3}, {3, 2}, {4, 1}} {
+	for _, nk := range [][2]int{{2, 3}, {3, 2}, {4, 1}, {11, 1}, {15, 1}} {
 		n, k := nk[0], nk[1]
 		input := numberedTrees(n)
 		out = append(out, scenario{name: fmt.Sprintf("gotree sample --replace -n %d on %d trees", k, n), cli: true, cells: uniform(tuples(n, k)), run: func(seed int64) (string, error) {
@@ -597,6 +597,37 @@ func scenarios() []scenario {
 			return strings.Join(sel, ","), nil
 		}})
 	}
+	// streams: a tree with fewer tips than requested must not change what later trees get
+	{
+		six := []string{"t0", "t1", "t2", "t3", "t4", "t5"}
+		big := "(" + strings.Join(six, ",") + ");\n"
+		input := big + "(t0,t1,t2);\n" + big
+		out = append(out, scenario{name: "gotree prune -r --random 4 on a file of trees with 6, 3 and 6 tips (tips kept in the third tree)", cli: true, cells: uniform(subsets(6, 4)), run: func(seed int64) (string, error) {
+			r := cli.Run(cli.Scratch(), input, "prune", "-r", "--random", "4", "--seed", strconv.FormatInt(seed, 10))
+			if r.Code != 0 {
+				return "", fmt.Errorf("exit %d: %s", r.Code, r.Stderr)
+			}
+			lines := strings.Split(strings.TrimSpace(r.Stdout), "\n")
+			if len(lines) != 3 {
+				return "", fmt.Errorf("%d trees printed for 3", len(lines))
+			}
+			m, err := ref.Parse(lines[2])
+			if err != nil {
+				return "", err
+			}
+			left := map[string]bool{}
+			for _, tip := range m.Tips() {
+				left[tip] = true
+			}
+			var sel []string
+			for i, nm := range six {
+				if left[nm] {
+					sel = append(sel, strconv.Itoa(i))
+				}
+			}
+			return strings.Join(sel, ","), nil
+		}})
+	}
 	// streams: every tree of the input file gets its own, independent draw
 	{
 		n, k := 4, 1
@@ -686,7 +717,7 @@ func scenarios() []scenario {
 }
 
 func TestC20Sweeps(t *testing.T) {
-	r := h.NewRecorder(t, "C20", "sweeps", "seed sweeps: for each scenario (ShuffleTips n=3,4; RotateNeighbors degree 3,4; RandomUniformBinaryTree unrooted n=4,5,6 and rooted n=3,4,5; `gotree sample -n k` for (n,k) in {(2,1),(3,1),(4,2),(5,2),(6,3),(5,5),(4,6)}; `sample --replace` (2,3),(3,2),(4,1); `prune --random k` remove/keep; `shuffletips`; `generate uniformtree`) the outcome is recorded for N consecutive seeds (library: rand.Seed(s); commands: --seed s; N = 4000/600 quick, 60000/6000 thorough) and every outcome cell and every 'element i selected' event is tested against its exact probability with an exact two-sided binomial test (per-cell level 1e-13, run-level false alarm probability < 1e-9), plus the support check (every possible outcome occurs; unexpected outcomes are violations). Evaluations = seeds drawn; non-trivial = seeds of scenarios with n > k >= 1 and >= 3 outcome cells")
+	r := h.NewRecorder(t, "C20", "sweeps", "seed sweeps: for each scenario (ShuffleTips n=3,4; RotateNeighbors degree 3,4; RandomUniformBinaryTree unrooted n=4,5,6 and rooted n=3,4,5; `gotree sample -n k` for (n,k) in {(2,1),(3,1),(4,2),(5,2),(6,3),(5,5),(4,6)}; `sample --replace` (2,3),(3,2),(4,1),(11,1),(15,1); `prune -r --random 4` on a stream of trees with 6, 3 and 6 tips; `prune --random k` remove/keep; `shuffletips`; `generate uniformtree`) the outcome is recorded for N consecutive seeds (library: rand.Seed(s); commands: --seed s; N = 4000/600 quick, 60000/6000 thorough) and every outcome cell and every 'element i selected' event is tested against its exact probability with an exact two-sided binomial test (per-cell level 1e-13, run-level false alarm probability < 1e-9), plus the support check (every possible outcome occurs; unexpected outcomes are violations). Evaluations = seeds drawn; non-trivial = seeds of scenarios with n > k >= 1 and >= 3 outcome cells")
 	scs := scenarios()
 	var rc Case
 	if replaying, mine := r.ReplayCase(&rc); replaying {
